@@ -120,7 +120,10 @@ def gen_dtls():
           "process_handshake_payload transcript exclusion", MOD)
     need(r"if msg\.message_seq < ctx\.recv_message_seq \{", p, "sequence filter (<)")
     need(r"if msg\.message_seq > ctx\.recv_message_seq \{", p, "sequence filter (>)")
-    need(r"if ctx\.post_hvr && is_client \{", p, "post-HVR resync")
+    need(r"if msg\.message_seq < ctx\.recv_message_seq \{ if ctx\.post_hvr && is_client && msg\.msg_type != HandshakeType::HelloVerifyRequest \{", p,
+         "post-HVR resync (lower seq; not for a duplicated HelloVerifyRequest)")
+    need(r"if msg\.message_seq > ctx\.recv_message_seq \{ if ctx\.post_hvr && is_client \{", p, "post-HVR resync (higher seq)")
+    m.raw("Definition hvr_dup_not_resync : bool := true.", "process_handshake_payload post-HVR resync guards", MOD)
     dup = need(r"if msg\.msg_type == HandshakeType::(\w+) && !is_client \{ self ?\.handle_handshake_message\(", p,
                "duplicate ClientHello special case")
     m.raw("Definition dup_retrigger_type : HandshakeType := HandshakeType_%s." % dup.group(1),
@@ -132,7 +135,10 @@ def gen_dtls():
           "process_handshake_payload duplicate Finished special case", MOD)
     need(r"if msg\.total_length != msg\.fragment_length \{", p, "fragment test")
     need(r"if ctx\.incomplete_msg_seq != msg\.message_seq \|\| msg\.fragment_offset == 0 \{", p, "fragment buffer reset rule")
-    need(r"ctx\.incomplete_handshake\.extend_from_slice\(&msg\.body\[\.\.\]\);", p, "fragment append (offset ignored)")
+    need(r"msg\.message_seq; \} if msg\.fragment_offset as usize != ctx\.incomplete_handshake\.len\(\) "
+         r"\|\| msg\.fragment_offset as u64 \+ msg\.fragment_length as u64 > msg\.total_length as u64 \{ continue; \} "
+         r"ctx\.incomplete_handshake\.extend_from_slice\(&msg\.body\[\.\.\]\);", p, "fragment accepted only at the next contiguous offset")
+    m.raw("Definition frag_contiguous_only : bool := true.", "process_handshake_payload contiguous-offset rule", MOD)
     need(r"if ctx\.incomplete_handshake\.len\(\) < msg\.total_length as usize \{", p, "fragment completion test")
     need(r"ctx\.recv_message_seq = ctx\.recv_message_seq\.wrapping_add\(1\);", p, "recv_message_seq increment (wrapping)")
     if rs2v.find_struct_fields(src, "HandshakeContext").get("recv_message_seq") != "u16":
@@ -260,7 +266,7 @@ def gen_dtls():
     bi = norm(b_in)
     need(r"if record\.epoch == 0 && \(record\.content_type == ContentType::ApplicationData \|\| ctx\.session_keys\.is_some\(\)\) \{ "
          r"let handshaking = matches!\(\*self\.state\.lock\(\), DtlsState::Handshaking\); "
-         r"if !handshaking \|\| matches!\( record\.content_type, ContentType::ApplicationData \| ContentType::Alert \) \{ continue; \} \}",
+         r"if !handshaking \|\| record\.content_type != ContentType::ChangeCipherSpec \{ continue; \} \}",
          bi, "epoch-0 discard rule")
     m.raw("Definition epoch0_discard_rule : bool := true.", "handle_incoming_packet epoch-0 discard rule", MOD)
     _, _, b_td = rs2v.find_fn(src, "try_decrypt_record", "DtlsInner")
